@@ -44,7 +44,10 @@ def judge(case, impl, model):
     # an attribute assignment reaches the property setter positionally by Python's own protocol: claimed like a keyword call
     setter = case['x']['access'][0] == 'propset'
     kwcall = s['keywordCall'] or setter
-    if claimed and (s['anyNonConforming'] or setter and s.get('positionalBad')) and kwcall:
+    # positional calls (dunder methods, *args functions, positional-only parameters): a value of the positional prefix that binds to
+    # a declared parameter without default (theorem positional_prefix_guard); Python itself must accept the call (twin)
+    posbad = bool(s.get('positionalPrefixBad')) and C.twin_accepts(impl)
+    if claimed and ((s['anyNonConforming'] or setter and s.get('positionalBad')) and kwcall or posbad):
         if impl['ran']:
             pfail = f'the body ran although a supplied value does not conform - {C.describe_case(case)}'
         elif not out.startswith('PED') and C.twin_accepts(impl) and 'clazzFails' not in model['regions']:
@@ -55,6 +58,6 @@ def judge(case, impl, model):
     if pfail and corr:
         if 'namedtuple' in model['regions']:
             finding = 'namedtupleStructuralArgument'
-    bad_in = bool(s['anyNonConforming'] or setter and s.get('positionalBad'))
+    bad_in = bool(s['anyNonConforming'] or setter and s.get('positionalBad') or posbad)
     return {'corr': corr, 'pfail': pfail, 'finding': finding, 'nontrivial': bool(bad_in or s['badProduced']),
             'tag': f"{case['x']['kind']}/{case['x']['access'][0]}/{case['x']['flavour']}/bad={int(bad_in)}{int(s['badProduced'])}/{out}", 'why': why}
